@@ -65,7 +65,10 @@ func c11(p *Pkg, _ *Pkg, payload json.RawMessage, res *Result) {
 			supported = append(supported, k)
 		}
 	}
-	for mask := 0; mask < 1<<len(supported); mask++ {
+	for mask := 0; mask < 2<<len(supported); mask++ {
+		// the top bit selects what a rejecting authenticator returns as request: the incoming one or nil
+		nilOnReject := mask>>len(supported)&1 == 1
+		mask := mask & (1<<len(supported) - 1)
 		api, err := NewAPI(p)
 		if err != nil {
 			res.Violate(Violation{Attrs: map[string]string{"kind": "surface"}, Observed: err.Error()})
@@ -104,6 +107,9 @@ func c11(p *Pkg, _ *Pkg, payload json.RawMessage, res *Result) {
 				consulted = append(consulted, k)
 				if token == "good-"+k {
 					return r.WithContext(context.WithValue(r.Context(), markKey{}, k)), true
+				}
+				if nilOnReject {
+					return nil, false
 				}
 				return r, false
 			}
